@@ -69,8 +69,11 @@ def stub_pandas():
 
 
 def gnss():
+    import warnings
     stub_pandas()
-    return mod("geodepy.gnss")
+    with warnings.catch_warnings():
+        warnings.simplefilter("ignore", SyntaxWarning)     # gnss.py has an invalid escape sequence in a regular expression
+        return mod("geodepy.gnss")
 
 
 def load_by_path(modname, relpath):
